@@ -31,6 +31,13 @@ Inductive case :=
 (* in-process server: one event written with tag text tg, write-level field text wf and event-level field text ef;
    acked = the write was accepted; obs = (Tags, Fields) of the event as a query returns it *)
 | KE2E (tg wf ef : bytes) (ut : utab) (qt : qtab) (acked : bool) (obs : option (bytes * bytes))
+(* in-process server with a pipe: one event written with tag text tg, write-level field text wf and event-level field
+   text ef into a source partition of the pipe; obs = the Fields text a query of the pipe's destination partition
+   returns for the copied event *)
+| KPipe (tg wf ef : bytes) (ut : utab) (qt : qtab) (obs : bytes)
+(* model.NewFormatParser("{vars}").FormatStr(event with the binary field list f, tag line tl) = txt (None = panic);
+   field.NewFieldsFromKVString(txt) = back; canon = tl is the line of a tag set (given as pairs) *)
+| KVars (tl f : bytes) (ord : kvmap) (canon : bool) (ut : utab) (qt : qtab) (txt : option bytes) (back : option bytes)
 (* strconv.Quote(v) = q, strconv.Unquote(q) = uq *)
 | KQuote (v q : bytes) (uq : option bytes)
 (* strconv.Unquote(s) = r *)
@@ -80,7 +87,29 @@ Definition check (c : case) : bool :=
           end
       | _, _ => negb acked
       end
-  | KQuote v q uq => quote_ok v q uq && quote_fact_ok v q
+  | KPipe tg wf ef ut qt obs =>
+      match to_map (tbl_unquote ut) tg, fields_of_kv (tbl_unquote ut) wf with
+      | Ok (kv :: m), Ok f1 =>
+          let f2 := field_parse (tbl_unquote ut) ef in
+          match as_kv (tbl_quote qt) (pipe_fields (tbl_quote qt) (tbl_unquote ut) (f1 ++ f2) (kv :: m)) with
+          | Ok t => bytes_eqb obs t
+          | _ => false
+          end
+      | _, _ => false
+      end
+  | KVars tl f ord canon ut qt txt back =>
+      let m := map_of_pairs ord in
+      match vars_text (tbl_quote qt) tl f, txt with
+      | Ok t, Some t' => bytes_eqb t t' &&
+                         option_eqb obytes_eqb (out_opt (fields_of_kv (tbl_unquote ut) t)) (Some back) &&
+                         (* the instance of C08_format_vars_partial *)
+                         implb (canon && bytes_eqb tl (line (tbl_quote qt) m) && negb (is_nil m) && tag_safe m &&
+                                forallb prov_pair_ok m && fields_wf f)
+                               (obytes_eqb back (Some (enc_fields (flat m) ++ f)))
+      | Panic, None => true
+      | _, _ => false
+      end
+  | KQuote v q uq => quote_ok v q uq && quote_fact_ok v q && negb (has LF q)
   | KUnquote s r => unquote_fact_ok s r
   | KPanicked _ _ => false
   end.
